@@ -295,9 +295,10 @@ def make_connect(world):
 
 def invariant(world):
     s = world.s
-    if world.tearing:
+    stopping = {q for q, st_ in world.state.items() if st_ == "stopping"}
+    if stopping:
         for p, op in s.trace[-1:]:
-            if op.startswith("rename(") and p not in world.tearing \
+            if op.startswith("rename(") and p not in stopping \
                     and world.renamed.get(p):
                 world.facts.add("installer-started-during-teardown")
     if len(world.installing) > 1:
@@ -502,10 +503,10 @@ def selftest():
 
 
 KNOWN = {
-    # the uninstall of the last leaver is not atomic with giving up the lock
-    # directory: root cause = a participant wins the rename (becomes the
-    # installer) while another one is between its successful rmdir of the
-    # lock directory and the end of its stop
+    # the stop of the last leaver (remove its lock file, rmdir, detach, unpin)
+    # is not atomic with respect to a new installer: root cause = a
+    # participant wins the rename (onto the emptied or removed lock
+    # directory) while another one is inside its stop sequence
     "C23-teardown-races-with-new-installer":
         lambda case, res: "installer-started-during-teardown"
         in res.get("facts", ()),
